@@ -26,7 +26,7 @@ theorem isCharBoundary_leadingTabs : ∀ l : List Nat, isCharBoundary l (leading
       rw [this]
       unfold isCharBoundary
       simp [utf8Len_tab, ih]
-    · have : leadingTabs (c :: rest) = 0 := by simp [leadingTabs, List.takeWhile_cons, h]
+    · have : leadingTabs (c :: rest) = 0 := by simp [leadingTabs, h]
       rw [this]
       simp [isCharBoundary]
 
